@@ -102,6 +102,7 @@ class Registry:
         self.globals = {}
         self.hooks = {}
         self.with_hooks = []
+        self.allow_unknown_externs = True
         try:
             from .grid import GridHook
             from .symdict import SymDictHook
